@@ -53,6 +53,7 @@ CONSTANTS
   WrCap,     \* sock: max units one write event moves (max_single_write)
   Conn,      \* sock: endpoint 1 connects ("none" | "ok" | "refused")
   Allow,     \* known-finding triggers admitted into the corpus (normally {})
+  WireCap,   \* sock: histories keep at most this many unread units in a socket (kernel buffers are finite)
   OneWay     \* TRUE: only endpoint 1 writes, only the far end is configured (narrow exhaustive alphabets)
 
 VARIABLES st, hist
@@ -682,7 +683,8 @@ Deadlines(S) == {<<e, k>> \in Eps \X {"r", "w"} : IF k = "r" THEN S.b[e].rdl >= 
 DlOf(S, p) == IF p[2] = "r" THEN S.b[p[1]].rdl ELSE S.b[p[1]].wdl
 NoTies == \A p, q \in Deadlines(st) : (p # q /\ Base(p[1]) = Base(q[1])) => DlOf(st, p) # DlOf(st, q)
 AvoidKnown == st.dv \subseteq Allow
-GenConstraint == Len(hist) <= D + 4 /\ NoTies /\ ~st.open /\ AvoidKnown
-Emit == (st.closing = 2 * Cardinality(Bases) /\ AvoidKnown /\ ~st.open) => PrintT(ToJson(hist))
+WireOK == \A e \in Eps : st.b[e].wire <= WireCap
+GenConstraint == Len(hist) <= D + 4 /\ NoTies /\ ~st.open /\ AvoidKnown /\ WireOK
+Emit == (st.closing = 2 * Cardinality(Bases) /\ AvoidKnown /\ ~st.open /\ WireOK) => PrintT(ToJson(hist))
 StateView == <<st>>
 =============================================================================
